@@ -123,7 +123,7 @@ def encode(s, cfg, builtin_tables):
                 raise Fail(ch)
             elif policy in ('replace', 'unihex'):
                 out.append(Pred(policy, ch))
-            elif policy == 'callable':
+            elif policy in ('callable', 'callable-u2lobj'):
                 out.append('(U%d)' % o)
             else:
                 raise ValueError(policy)
